@@ -1,6 +1,8 @@
 import XrsVerif.Proofs.HaloNV
 import XrsVerif.Proofs.ProximityWindow
 import XrsVerif.Gen.ProximityDask
+import XrsVerif.Gen.GraphKeys
+import XrsVerif.Proofs.GraphKeys
 import XrsVerif.Gen.Kernels
 import Mathlib.Algebra.Order.Field.Rat
 import Mathlib.Tactic.Linarith
@@ -43,6 +45,30 @@ theorem proximity_wiring_ok :
       (proximity_dask.arrays == ["raster.data", "xs", "ys"]) &&
       (proximity_dask.fallbackTest == "max_distance >= max_possible_distance")) = true := by
   decide
+
+/-- **the `map_overlap` of `_process_dask` leaves the key of its layer to dask** (generated): no `name=`, no forwarded
+    `**kwargs` -- in the per-operation fact and in the independent sweep over `proximity.py` (which sees that very call,
+    inside `_process._process_dask`, and the two `from_array` calls of the coordinate grids).  The block function is a
+    closure over `target_values`, `max_distance`, the metric and the mode; dask's key is a token of that closure and of
+    all three arrays, so per-class / per-distance / per-mode results evaluated in one graph (`dask.compute(a, b)`,
+    `a - b`, one Dataset) keep their own tasks: `joint_proximity_results_are_the_single_results` below
+    (model and counter-example: Proofs/GraphKeys.lean, Props/C01 section 6b).  A key written at the call site from only
+    some of these (`C01.partial_key_is_not_faithful`) would break this theorem before any input is found. -/
+theorem proximity_site_leaves_key_to_dask :
+    (proximity_dask.keyName == "" && !proximity_dask.opaqueKwargs &&
+      ((allGraphKeyFacts.filter fun s => s.module == "proximity").all GraphKeyFact.keyFree) &&
+      (allGraphKeyFacts.any fun s => s.site == "proximity._process._process_dask" && s.kind == "map_overlap")) = true := by
+  decide +kernel
+
+/-- hence (for any naming that is faithful, as dask's is): any set of proximity / allocation / direction calls
+    evaluated together gives each block the value it has when its call is computed alone -/
+theorem joint_proximity_results_are_the_single_results {C V : Type} (name : C → String)
+    (task : C → Nat × Nat → GraphKeys.Task (String × Nat × Nat) V) (hf : GraphKeys.Faithful name task)
+    (blocks : C → List (Nat × Nat)) (calls : List C) (c : C) (hc : c ∈ calls)
+    (n : Nat) (k : String × Nat × Nat) (v : V)
+    (h : GraphKeys.eval (GraphKeys.layer name task (blocks c) c) n k = some v) :
+    GraphKeys.eval (GraphKeys.merge (calls.map fun c => GraphKeys.layer name task (blocks c) c)) n k = some v :=
+  GraphKeys.joint_layers_eq_alone name task hf blocks calls c hc n k v h
 
 /-! ## the halo covers max_distance, per axis with its own cell size -/
 
